@@ -121,10 +121,11 @@ int main(int argc, char **argv) {
         if(opn2_rt_noteOn(I.dev, 9, (OPN2_UInt8)key, 100) != 1) { o.fail("C10/note-rejected", "drum note rejected"); return; }
         snprintf(w, sizeof w, "%s drum key %d played with MIDI key %d", s.family ? "OPNA" : "OPN2", dk, key); check_pitch(I, s.family, dk, w, o, lastf, false); if(i % 97 == 0) o.sample = w; if(!o.bad) o.nontrivial = true; };
       fams.push_back(F); }
-    { en::Family F; F.name = "bend_all_keydown_notes"; F.count = 2 * 64; F.chunk = 8; F.budget_s = 60; F.describe = "3 key-down notes + 1 pedal-held note on a channel (+1 note on another channel): one pitch-bend message must re-write A4/A0 for exactly the key-down notes of that channel, in that call; 64 bend values x 2 families";
+    { en::Family F; F.name = "bend_all_keydown_notes"; F.count = 2 * 64 * 2; F.chunk = 8; F.budget_s = 60; F.describe = "3 key-down notes + 1 pedal-held note on a channel (+1 note on another channel): one pitch-bend message must re-write A4/A0 for exactly the key-down notes of that channel, in that call; 64 bend values x 2 families x {no sostenuto, sostenuto pedal (CC66) pressed while the three keys are down: they are still key-down notes}";
       F.run = [](uint64_t i, en::CaseOut &o) { Sweep s; s.family = (int)(i % 2); s.range = 2; s.offset = 2; s.chan = 0; pl::Instance I; if(!setup(I, s, 0)) { o.fail("C10/harness", "setup"); return; }
-        OPN2_MIDIPlayer *d = I.dev; int bend = (int)(i / 2) * 256 + 7;
+        OPN2_MIDIPlayer *d = I.dev; int bend = (int)((i / 2) % 64) * 256 + 7; bool sostenuto = i >= 128;
         opn2_rt_noteOn(d, 0, 50, 100); opn2_rt_noteOn(d, 0, 60, 100); opn2_rt_noteOn(d, 0, 70, 100);
+        if(sostenuto) opn2_rt_controllerChange(d, 0, 66, 127);   // the three keys stay down: sostenuto only decides what happens when they are released
         opn2_rt_controllerChange(d, 0, 64, 127); opn2_rt_noteOn(d, 0, 80, 100); opn2_rt_noteOff(d, 0, 80);   // pedal-held
         opn2_rt_noteOn(d, 1, 65, 100);                                                                     // other channel
         I.tap.logging = true; I.tap.log.clear();
@@ -132,17 +133,19 @@ int main(int argc, char **argv) {
         std::set<int> touched; for(auto &w : I.tap.log) if(!w.kind && (w.reg & 0xFC) == 0xA4) touched.insert(w.port * 3 + (w.reg & 3));
         // which chip channels hold the key-down notes of MIDI channel 0?
         OPNMIDIplay &p = *I.play(); std::set<int> want; std::set<int> held;
-        for(size_t c = 0; c < p.m_chipChannels.size(); c++) for(auto j = p.m_chipChannels[c].users.begin(); !j.is_end(); ++j) { if(j->value.loc.MidCh == 0 && j->value.sustained == 0) want.insert((int)c); else held.insert((int)c); }
+        for(size_t c = 0; c < p.m_chipChannels.size(); c++) for(auto j = p.m_chipChannels[c].users.begin(); !j.is_end(); ++j) { // key down = the MIDI channel still lists the note and the note lists this chip channel (a released, pedal-held note is only a user of the chip channel)
+            bool keydown = false; if(j->value.loc.MidCh == 0) { auto k = p.m_midiChannels[0].find_activenote(j->value.loc.note); keydown = !k.is_end() && k->value.phys_find((unsigned)c) != nullptr; }
+            if(keydown) want.insert((int)c); else held.insert((int)c); }
         char b[200];
         if(want.size() != 3) { o.fail("C10/harness", "expected 3 key-down notes"); return; }
-        for(int c : want) if(!touched.count(c)) { snprintf(b, sizeof b, "pitch bend %d did not re-pitch the key-down note on chip channel %d in the same call", bend, c); o.fail("C10/bend-missed-keydown-note", b); return; }
+        for(int c : want) if(!touched.count(c)) { snprintf(b, sizeof b, "pitch bend %d did not re-pitch the key-down note on chip channel %d in the same call%s", bend, c, sostenuto ? " (sostenuto pedal pressed while the key is down)" : ""); o.fail(sostenuto ? "C10/bend-missed-keydown-note/sostenuto" : "C10/bend-missed-keydown-note", b); return; }
         for(int c : held) if(touched.count(c)) { snprintf(b, sizeof b, "pitch bend %d re-pitched chip channel %d, which holds a pedal-held note or a note of another MIDI channel", bend, c); o.fail("C10/bend-touched-other-note", b); return; }
         // and each re-pitched note is in tune
         for(int c : want) { const pl::ChipShadow &cs = I.tap.chips[0]; int port = c / 3, cc = c % 3; unsigned a4 = cs.regs[port][0xA4 + cc], a0 = cs.regs[port][0xA0 + cc];
             int key = -1; for(auto j = p.m_chipChannels[(size_t)c].users.begin(); !j.is_end(); ++j) key = j->value.loc.note;
             double pp = key + (bend - 8192) / 8192.0 * 2.0, nominal = 440.0 * pow(2.0, (pp - 69.0) / 12.0), f = freq_of(a4, a0, s.family);
             if(fabs(f - nominal) > step_of(a4, s.family) * 1.0001) { snprintf(b, sizeof b, "key %d after bend %d: %.3f Hz, nominal %.3f Hz", key, bend, f, nominal); o.fail("C10/out-of-tune/after-bend", b); return; } }
-        o.sample = "bend " + std::to_string(bend) + " with 3 key-down + 1 pedal-held note"; o.nontrivial = true; };
+        o.sample = "bend " + std::to_string(bend) + " with 3 key-down + 1 pedal-held note" + (sostenuto ? ", sostenuto pressed" : ""); o.nontrivial = true; };
       fams.push_back(F); }
     { en::Family F; F.name = "portamento_endpoints"; F.count = 2 * 20 * 20; F.chunk = 16; F.budget_s = 60; F.describe = "portamento on: the second note starts at the first key's pitch and ends exactly at its own key's pitch (20 x 20 key pairs, OPN2/OPNA, portamento time 1)";
       F.run = [](uint64_t i, en::CaseOut &o) { Sweep s; s.family = (int)(i % 2); s.range = 2; s.offset = 2; s.chan = 0; int k1 = 30 + 4 * (int)((i / 2) % 20), k2 = 32 + 4 * (int)(i / 40);
